@@ -149,6 +149,8 @@ class AxisEval:
                 return [x + y for x, y in zip(a, b)]
             if q in ('numpy.einsum', 'torch.einsum', 'opt_einsum.contract'):
                 return self.einsum(e)
+            if q in ('numpy.tensordot', 'torch.tensordot') and len(e.args) >= 2:
+                return self.tensordot(e)
             if q in ('numpy.sqrt',):
                 return self.ev(e.args[0])
             raise TypeErr(f'call `{ast.unparse(e)[:40]}`')
@@ -220,6 +222,25 @@ class AxisEval:
                 else:
                     label[ix] = ax
         return [label[ix] for ix in out_idx]
+
+
+def _tensordot(self, e):
+    a, b = self.ev(e.args[0]), self.ev(e.args[1])
+    dims = next((k.value for k in e.keywords if k.arg in ('dims', 'axes')), e.args[2] if len(e.args) > 2 else None)
+    if not (isinstance(dims, (ast.Tuple, ast.List)) and len(dims.elts) == 2 and all(isinstance(x, (ast.Tuple, ast.List)) for x in dims.elts)):
+        raise TypeErr('tensordot with non-literal axes')
+    la = [x.value for x in dims.elts[0].elts]
+    lb = [x.value for x in dims.elts[1].elts]
+    if len(la) != len(lb):
+        raise TypeErr('tensordot axes of different length')
+    for i, j in zip(la, lb):
+        if size_of(a[i]) != size_of(b[j]):
+            raise TypeErr(f'tensordot pairs axis {i} ({"*".join(a[i])}) with axis {j} ({"*".join(b[j])}): different sizes')
+        self._contract_check(a[i], b[j], e)
+    return [ax for k, ax in enumerate(a) if k not in la] + [ax for k, ax in enumerate(b) if k not in lb]
+
+
+AxisEval.tensordot = _tensordot
 
 
 def _strip_primes_equal(a, b):
